@@ -5,7 +5,7 @@ from concurrent.futures import ThreadPoolExecutor
 ROOT = os.path.dirname(os.path.dirname(os.path.abspath(__file__)))
 COQ = os.path.join(ROOT, 'coq')
 QFLAGS = ['-Q', 'theories', 'QSC', '-Q', 'gen', 'QSCGen', '-Q', 'gprops', 'QSCGProps', '-Q', 'props', 'QSCProps']
-THEORIES = ['Expr', 'Equiv', 'Dim', 'Sign', 'Shift', 'Replicate', 'Shallow', 'Pipeline', 'Series', 'DiffMat', 'Quadrant', 'Newton', 'Bracket', 'RootSelect', 'ObjModel', 'Effects', 'TrigSum', 'VmecEmit', 'DiffKernel', 'InterpKernel', 'EvenKernel', 'Winding']
+THEORIES = ['Expr', 'Equiv', 'Dim', 'Sign', 'Shift', 'Replicate', 'Shallow', 'Pipeline', 'Series', 'DiffMat', 'Quadrant', 'Newton', 'Bracket', 'RootSelect', 'ObjModel', 'Effects', 'TrigSum', 'VmecEmit', 'DiffKernel', 'InterpKernel', 'EvenKernel', 'Winding', 'FloatOrder']
 FORBIDDEN = re.compile(r'\b(Admitted|admit|Axiom|Axioms|Parameter|Parameters|Conjecture|Hypothesis\s|Variable\s)|Unset\s+Guard|bypass_check|type-in-type|impredicative-set|Admit\s+Obligations')
 ALLOWED_AXIOMS = {
     'ClassicalDedekindReals.sig_not_dec', 'ClassicalDedekindReals.sig_forall_dec',
@@ -13,12 +13,18 @@ ALLOWED_AXIOMS = {
     # the same three standard-library axioms, as printed when the declaring module is imported
     'functional_extensionality_dep', 'sig_not_dec', 'sig_forall_dec',
 }
+# specification axioms of the primitive floats declared by the standard library (Coq.Floats.FloatAxioms); they are used ONLY by
+# theories/FloatOrder.v (IEEE order laws for PrimFloat.ltb / leb) and, in its RealSemantics module, together with Classical_Prop.classic (via Flocq / Reals)
+FLOAT_AXIOMS = {'FloatAxioms.ltb_spec', 'FloatAxioms.leb_spec', 'FloatAxioms.eqb_spec', 'FloatAxioms.abs_spec', 'FloatAxioms.Prim2SF_valid', 'FloatAxioms.SF2Prim_Prim2SF', 'FloatAxioms.Prim2SF_SF2Prim',
+                'ltb_spec', 'leb_spec', 'eqb_spec', 'abs_spec', 'Prim2SF_valid', 'SF2Prim_Prim2SF', 'Prim2SF_SF2Prim', 'Classical_Prop.classic', 'classic'}
 # Coq's primitive machine floats / integers are reported by Print Assumptions under "Axioms:" although they are kernel primitives, not
 # declared axioms; they only occur in the PrimFloat instances of the hand-written control models (used for the correspondence checks)
 PRIMITIVES = {'float', 'int', 'ltb', 'leb', 'eqb', 'add', 'sub', 'mul', 'div', 'sqrt', 'abs', 'opp', 'of_uint63', 'normfr_mantissa', 'frshiftexp',
               'ldshiftexp', 'next_up', 'next_down', 'classify', 'compare',
               'PrimFloat.float', 'PrimFloat.ltb', 'PrimFloat.leb', 'PrimFloat.eqb', 'PrimFloat.add', 'PrimFloat.sub', 'PrimFloat.mul', 'PrimFloat.div',
-              'PrimFloat.sqrt', 'PrimFloat.abs', 'PrimFloat.opp', 'Uint63.int', 'PrimInt63.int'}
+              'PrimFloat.sqrt', 'PrimFloat.abs', 'PrimFloat.opp', 'Uint63.int', 'PrimInt63.int',
+              'land', 'lsr', 'lor', 'lsl', 'PrimInt63.eqb', 'PrimInt63.land', 'PrimInt63.lsr', 'PrimInt63.lor', 'PrimInt63.lsl', 'PrimInt63.sub', 'PrimInt63.add',
+              'PrimFloat.frshiftexp', 'PrimFloat.normfr_mantissa', 'PrimFloat.ldshiftexp', 'PrimFloat.of_uint63'}
 
 
 class Lock:
